@@ -324,5 +324,8 @@ RECORDS = {
 IMMUTABLE_VALUE_CLASSES = {"int", "float", "str", "bool", "NoneType",
                            "ByteArray", "Placeholder", "AlignmentPlaceholder",
                            "LastPos"}
+# mutable containers whose elements are immutable (numbers): a shallow copy
+# of one shares nothing that can change
+FLAT_VALUE_CLASSES = {"NumericArray", "Trace"}
 MUTABLE_VALUE_CLASSES = {"list", "dict", "CIGAR", "Trace", "NumericArray",
                          "OrientedLine", "FieldArray"}
